@@ -70,6 +70,7 @@ DEFAULT_CFG = {
     "latency": LATENCY,
     "c_supported": None,
     "s_supported": None,
+    "c_drop_first": 0,        # scripted fault: the first N client datagrams are lost
     "tickets": None,          # {"client": [], "server": {}} session-ticket store shared between worlds
     "c_max_streams": None,    # (bidi, uni) stream-count limits advertised by the client
     "s_max_streams": None,
@@ -394,6 +395,10 @@ class NetSim:
             d.recs = self.obs.observe(ep.name, data, addr, self.now)
             ep.sent_packets.extend(d.recs)
             recs_all.append((d, addr))
+            if ep.name == "c" and d.id < self.cfg["c_drop_first"]:
+                d.kind = "scripted_loss"
+                self.log("send_lost", (ep.name, d.id, len(data)))
+                continue
             if ep.name == "s" and addr != self.client_addr:
                 # addressed to where the client is not (stale or spoofed address): blackholed
                 d.kind = "misrouted"
@@ -764,3 +769,22 @@ class Monitor:
 
     def at_end(self, w, outcome):
         pass
+
+
+_TICKETS = {}
+
+
+def obtain_tickets(base_cfg=None):
+    """Run a first connection (default schedule) and return a ticket store usable as
+    cfg["tickets"] for a resuming second connection. Each call builds fresh tickets."""
+    from . import explore
+
+    store = {"client": [], "server": {}}
+    cfg = dict(base_cfg or {})
+    cfg["tickets"] = store
+    cfg.pop("c_drop_first", None)
+    w1 = NetSim(cfg, {"c": [{"op": "ping", "uid": 1}]}, explore.Chooser([]))
+    w1.run(lambda w: 1 in w.ep["c"].pings_acked and store["client"])
+    if not store["client"]:
+        raise core.HarnessError("no session ticket obtained")
+    return store
